@@ -58,6 +58,7 @@ struct Shared
   std::unique_ptr<AnyManifold> any, any2;
   Spline<3, SE3d> spline;
   Spline<3, Eigen::Vector2d> spline_r2;
+  Spline<3, SE3d> spline_cc;  // concatenation of cropped pieces: every segment starts inside a polynomial piece
   std::unique_ptr<BSpline<3, SE2d>> bspline;
   std::vector<double> fit_ts;
   std::vector<SE2d> fit_gs;
@@ -88,6 +89,11 @@ static Shared make_shared_state(Rng & r)
     s.spline += Spline<3, SE3d>(0.5 + r.uni(), V);
     Eigen::Matrix<double, 2, 3> W = Eigen::Matrix<double, 2, 3>::NullaryExpr([&]() { return r.sym(); });
     s.spline_r2 += Spline<3, Eigen::Vector2d>(0.5 + r.uni(), W);
+  }
+  for (int k = 0; k < 6; ++k) {
+    const double T = s.spline.t_max(), ta = T * (0.05 + 0.9 * r.uni()), tb = std::min(T, ta + T * (0.05 + 0.3 * r.uni()));
+    if (k % 2) s.spline_cc += s.spline.crop(ta, tb, true);
+    else s.spline_cc.concat_global(s.spline.crop(ta, tb, false));
   }
   std::vector<SE2d> ctrl = {make_elem<SE2d>(gen_coeffs<double>(*l2, r, R_GENERIC, T_SMALL))};
   for (int i = 1; i < 12; ++i) ctrl.push_back(ctrl.back() + Eigen::Vector3d(0.3 * r.sym(), 0.3 * r.sym(), 0.3 * r.sym()));
@@ -153,6 +159,12 @@ static void work(const Shared & s, int it, unsigned mask, Digest & d, std::map<s
     d.mat(v);
     d.mat(ac);
     d.grp(s.spline.crop(0.3 * t, t, it % 2 == 0)(0.1));
+    {
+      const double tc = s.spline_cc.t_max() * ((it * 53) % 97) / 96.0;
+      d.grp(s.spline_cc(tc, v, ac));
+      d.mat(v);
+      d.grp(s.spline_cc(s.spline_cc.t_max() - tc));
+    }
     d.mat(s.spline_r2.arclength(s.spline_r2.t_max() * ((it * 13) % 17) / 16.0));
     Eigen::Vector3d bv, ba;
     d.grp((*s.bspline)(s.bspline->t_min() + (s.bspline->t_max() - s.bspline->t_min()) * ((it * 29) % 53) / 52.0, bv, ba));
@@ -220,7 +232,7 @@ int main(int argc, char ** argv)
 #else
   const bool tsan = false;
 #endif
-  const long ncases = args.tier ? (tsan ? 40 : 60) : (tsan ? 10 : 16);
+  const long ncases = args.tier ? (tsan ? 1000 : 1600) : (tsan ? 10 : 16);
   static const unsigned masks[] = {63u, 4u, 8u | 16u, 1u | 2u, 32u, 4u | 8u, 63u, 16u};
   rep.run_stream(tsan ? "concurrent.tsan" : "concurrent.plain", ncases, [&](Rng & r, long idx) {
     const Shared s     = make_shared_state(r);
@@ -239,12 +251,16 @@ int main(int argc, char ** argv)
           lg.digests.reserve(size_t(iters));
           lg.spans.reserve(size_t(iters));
           while (now() < start_at) {}
-          for (int it = 0; it < iters; ++it) {
+          // every thread walks the same set of work items in its own rotated order, so that at any moment different
+          // threads use the shared objects with different arguments (state that depends on the last call would show)
+          lg.digests.assign(size_t(iters), 0);
+          for (int k = 0; k < iters; ++k) {
+            const int it = (k + t * 7) % iters;
             Digest d;
             const double t0 = now();
             work(s, it, mask, d, nullptr);
             lg.spans.emplace_back(t0, now());
-            lg.digests.push_back(d.h);
+            lg.digests[size_t(it)] = d.h;
           }
         });
       for (auto & t : th) t.join();
@@ -298,8 +314,12 @@ int main(int argc, char ** argv)
     rep.count("C18.thread_iterations", long(nthreads) * iters);
     rep.count("C18.threads_started", nthreads);
     for (auto & [k, n] : opcount) rep.count("C18.ops." + k, n * nthreads);
-    // a concurrent run in which nothing overlapped proves nothing
-    rep.judge(std::string(tsan ? "tsan" : "plain") + ".observed_overlap", st, overlapping > 0 ? 0 : 1, 0.5, det);
+    // a concurrent run in which nothing overlapped proves nothing about concurrency (it happens on a loaded machine when a
+    // thread finishes its iterations inside one time slice): that is an inconclusive case, never a violation. The driver
+    // demands that at least 80 % of the cases overlapped (floor "ratios"), otherwise the whole check is inconclusive.
+    rep.count("C18.cases_run");
+    if (overlapping > 0) rep.count("C18.cases_with_overlap");
+    else rep.count("C18.cases_without_overlap");
   });
   rep.write();
   return 0;
